@@ -1392,7 +1392,10 @@ spec("C11", plan=plan_c11,
 def plan_c07(tier, seed, workdir, case):
     scratch_dir = os.path.join(workdir, "scratch")
     os.makedirs(scratch_dir, exist_ok=True)
+    zoo_sweep = Target("c03_sweep", "targets/c03_bounds.cpp", mode="asan")
     if case is not None:
+        if case.get("kind") == "bounds-diff":
+            return [Run(zoo_sweep, args=["--prop", "C07"])]
         g = gen.Grammar.from_json(case["grammar"])
         g.c07 = True
         ts = write_tus(workdir, "replay", [g], 1, 1, C09_INCLUDES)
@@ -1412,6 +1415,8 @@ def plan_c07(tier, seed, workdir, case):
     runs = []
     for i, t in enumerate(write_tus(workdir, "i1", gs, 2 if q else 8, 1, C09_INCLUDES)):
         runs.append(Run(t, args=["--prop", "C07", "--scratch", os.path.join(scratch_dir, "f%d.bin" % i)]))
+    # the hand-written rules and shipped grammars of the C03 zoo: memory_input vs buffer_input with 3-byte and 1-byte reads
+    runs.append(Run(zoo_sweep, args=["--prop", "C07"], nshards=8, timeout=3000))
     return runs
 
 
@@ -1427,6 +1432,8 @@ spec("C07", plan=plan_c07,
           "action trace with spans as bytes and positions, hook trace with positions) equals the baseline's; std::overflow_error is the "
           "only permitted deviation for the incremental inputs, and for buffer_input only when the throwing request really needs more "
           "than `maximum` bytes buffered after the last discard point (documented guarantee, doc/Inputs-and-Parsing.md 'Buffer Details'; "
-          "measured by a derived input class that shadows require/size/end/empty/discard).  Non-trivial: buffer runs in which the reader was called again after "
+          "measured by a derived input class that shadows require/size/end/empty/discard).  In addition the 79 rules / shipped grammars "
+          "of the C03 sweep (json, uri, http, integer, raw_string, utf8/16/32, uintN, abnf, examples) x seeds x truncations x byte "
+          "replacements: result and consumption through memory_input vs buffer_input fed 3 bytes resp. 1 byte per read.  Non-trivial: buffer runs in which the reader was called again after "
           "parsing had started, and file based runs; distinct = (grammar, input, read pattern, maximum).",
      assumptions=COMMON_ASSUME + ["discard is used only at the end of a top-level repetition element and only in runs without actions with input"])
